@@ -593,6 +593,7 @@ async fn child_drive_cli(spec: &ChildSpec, rip: &str) -> ChildObs {
             obs.errors.push("`rip config doctor` printed something else than GET /config/doctor answered".into());
         }
         call(&app, &mut raw, &mut obs, "GET", "/tasks", None).await;
+        ask_every_diagnostic(&app, &mut raw, &mut obs).await;
         unsafe {
             libc::kill(meta.pid as i32, libc::SIGTERM);
         }
@@ -673,13 +674,20 @@ impl Target {
     }
 }
 
-async fn call(
+async fn call(app: &Target, raw: &mut Vec<u8>, obs: &mut ChildObs, method: &str, uri: &str, body: Option<Value>) -> (u16, Vec<u8>) {
+    call_within(app, raw, obs, method, uri, body, 240).await
+}
+
+/// `watchdog_s` < 240: an endpoint the harness does not know (it may stream for ever) - what arrived in time is kept and an
+/// expired watchdog is not an error
+async fn call_within(
     app: &Target,
     raw: &mut Vec<u8>,
     obs: &mut ChildObs,
     method: &str,
     uri: &str,
     body: Option<Value>,
+    watchdog_s: u64,
 ) -> (u16, Vec<u8>) {
     use futures_util::StreamExt;
     let mut resp = match app.request(method, uri, body).await {
@@ -697,23 +705,24 @@ async fn call(
         raw.extend_from_slice(v);
         raw.push(b'\n');
     }
-    let collect = async {
-        let mut all = vec![];
-        while let Some(c) = resp.body.next().await {
-            match c {
-                Ok(b) => all.extend_from_slice(&b),
-                Err(_) => break,
+    let mut all: Vec<u8> = vec![];
+    let deadline = tokio::time::Instant::now() + Duration::from_secs(watchdog_s);
+    let mut expired = false;
+    loop {
+        match tokio::time::timeout_at(deadline, resp.body.next()).await {
+            Ok(Some(Ok(b))) => all.extend_from_slice(&b),
+            Ok(_) => break,
+            Err(_) => {
+                expired = true;
+                break;
             }
         }
-        all
-    };
-    let bytes = match tokio::time::timeout(Duration::from_secs(240), collect).await {
-        Ok(b) => b,
-        _ => {
-            obs.errors.push(format!("{method} {uri}: body watchdog"));
-            vec![]
-        }
-    };
+    }
+    if expired && watchdog_s >= 240 {
+        obs.errors.push(format!("{method} {uri}: body watchdog"));
+        all.clear();
+    }
+    let bytes = all;
     raw.extend_from_slice(&bytes);
     obs.statuses.push((format!("{method} {}", uri.split('/').take(2).collect::<Vec<_>>().join("/")), status));
     obs.bodies.push((format!("{method} {}", uri.split('/').enumerate().map(|(i, p)| if i == 2 && p.len() > 20 { "<id>" } else { p }).collect::<Vec<_>>().join("/")), String::from_utf8_lossy(&bytes).to_string()));
@@ -803,6 +812,34 @@ async fn sse_until(
         }
     }
     frames
+}
+
+/// The doctor asked with every "show me more" switch one might add later, and EVERY parameter-less GET endpoint the authority
+/// advertises in its OpenAPI document that the harness does not call anyway (a diagnostics endpoint added later is asked as
+/// soon as it exists).  Everything answered is canary-searched and takes part in the differential.
+async fn ask_every_diagnostic(app: &Target, raw: &mut Vec<u8>, obs: &mut ChildObs) {
+    call(app, raw, obs, "GET", "/config/doctor?verbose=1&debug=true&full=1&all=1&raw=1&reveal=true&show_secrets=1&include=secrets,keys,headers,env&format=text", None).await;
+    // the OpenAPI document itself is static and large: read, not recorded
+    let Ok(mut resp) = app.request("GET", "/openapi.json", None).await else { return };
+    let mut doc: Vec<u8> = vec![];
+    {
+        use futures_util::StreamExt;
+        while let Ok(Some(Ok(c))) = tokio::time::timeout(Duration::from_secs(60), resp.body.next()).await {
+            doc.extend_from_slice(&c);
+        }
+    }
+    let Ok(v) = serde_json::from_slice::<Value>(&doc) else { return };
+    let mut paths: Vec<String> = v["paths"]
+        .as_object()
+        .map(|o| o.iter().filter(|(p, item)| !p.contains('{') && item.get("get").is_some()).map(|(p, _)| p.clone()).collect())
+        .unwrap_or_default();
+    paths.sort();
+    for p in paths {
+        if matches!(p.as_str(), "/config/doctor" | "/tasks" | "/threads" | "/openapi.json") {
+            continue;
+        }
+        call_within(app, raw, obs, "GET", &p, None, 3).await;
+    }
 }
 
 /// one run through the authority: a thread message (per-request overrides) or a session input; returns the session id
@@ -1044,6 +1081,7 @@ async fn child_drive(spec: &ChildSpec) -> ChildObs {
         }
     }
     call(&app, &mut raw, &mut obs, "GET", "/tasks", None).await;
+    ask_every_diagnostic(&app, &mut raw, &mut obs).await;
     tokio::time::sleep(Duration::from_millis(30)).await;
     std::fs::write(&spec.out_raw, &raw).unwrap();
     drop(app);
@@ -2114,9 +2152,13 @@ fn gen_scenario(rng: &mut Rng, i: u64) -> Scenario {
     if !base.providers.is_empty() || base.model.is_some() || base.primary.is_some() {
         sc.layers.push(base);
     }
-    // request dumping on for every other scenario (and explicitly off sometimes)
+    // request dumping on for every other scenario (and explicitly off sometimes); a third of the dumps with a byte limit
+    // (the truncation path) or an unusable one
     if rng.chance(1, 2) {
         sc.env.push(("RIP_OPENRESPONSES_DUMP_REQUEST".into(), if rng.chance(1, 2) { "1".into() } else { "TRUE".into() }));
+        if rng.chance(1, 3) {
+            sc.env.push(("RIP_OPENRESPONSES_DUMP_REQUEST_MAX_BYTES".into(), (*rng.pick(&["64", "1", "4096", "0", "lots", " 300 "])).into()));
+        }
     } else if rng.chance(1, 2) {
         sc.env.push(("RIP_OPENRESPONSES_DUMP_REQUEST".into(), "0".into()));
     }
